@@ -19,6 +19,7 @@ import (
 	"github.com/hattya/go.sh/ast"
 	"github.com/hattya/go.sh/interp"
 	"github.com/hattya/go.sh/parser"
+	"github.com/hattya/go.sh/pattern"
 )
 
 type c15Case struct {
@@ -133,6 +134,21 @@ func c15Judge(c c15Case, w ast.Word) string {
 		if b.String() != c.S {
 			return fmt.Sprintf("Expand(%s, Pattern) = %q matches %q, not %q", c.Src, got[0], b.String(), c.S)
 		}
+		// and the pattern matcher itself takes it that way: it matches s as a whole and none of its neighbours
+		if c.S != "" {
+			if m, e := pattern.Match([]string{got[0]}, pattern.Prefix|pattern.Largest, c.S); e != nil || m != c.S {
+				return fmt.Sprintf("Expand(%s, Pattern) = %q, but Match([%q], Prefix|Largest, %q) = %q, %v: the quoted text does not match itself", c.Src, got[0], got[0], c.S, m, e)
+			}
+			rs := []rune(c.S)
+			for _, other := range []string{string(rs[:len(rs)-1]), c.S + string(rs[len(rs)-1]), string(rs[1:]) + string(rs[0])} {
+				if other == c.S {
+					continue
+				}
+				if m, e := pattern.Match([]string{got[0]}, pattern.Prefix|pattern.Largest, other); e == nil && m == other && other != "" {
+					return fmt.Sprintf("Expand(%s, Pattern) = %q, but Match([%q], Prefix|Largest, %q) matches all of %q: the quoted text matches something other than itself", c.Src, got[0], got[0], other, other)
+				}
+			}
+		}
 		return ""
 	}
 	if got[0] != c.S {
@@ -178,6 +194,36 @@ func c15Run(w *W) {
 	n := 4
 	if w.thorough() {
 		n = 5
+	}
+	for _, fam := range [][]rune{[]rune("a{}2,"), []rune("a()|+"), []rune("a^$.é")} {
+		genRunes(fam, 5, func(rs []rune) {
+			if len(rs) == 0 || !w.Mine() || w.TimeUp() {
+				return
+			}
+			s := string(rs)
+			w.Count("states", 1)
+			for _, style := range []string{"single", "double", "backslash"} {
+				src, ok := c15Quote(s, style)
+				if !ok {
+					continue
+				}
+				word, err := c13Parse(src)
+				if err != nil {
+					w.Violation("", c15Case{S: s, Style: style, Src: src}, fmt.Sprintf("the parser rejects the quoted word %s: %v", src, err))
+					continue
+				}
+				for _, m := range []interp.ExpMode{0, interp.Pattern} {
+					c := c15Case{S: s, Style: style, Src: src, Mode: uint(m), Env: "default"}
+					w.Count("evaluations", 1)
+					w.Count("regexp_metacharacter_strings", 1)
+					w.Count("traces_validated_against_impl", 1)
+					w.Count("distinct_nontrivial", 1)
+					if d := c15Judge(c, word); d != "" {
+						w.Violation("", c, d)
+					}
+				}
+			}
+		})
 	}
 	genRunes(c15Alpha, n, func(rs []rune) {
 		if !w.Mine() || w.TimeUp() {
